@@ -196,7 +196,13 @@ def classify(lx, rx, base, other):
                 out.append((f, "known", KEY_SCRIPT))
             else:
                 out.append((f, "violation", "%s formatter outputs differ: %r vs %r" % (f, base[f], other[f])))
-    for f in ("patched", "fxml"):
+    for f in ("t_script", "t_script_after_xml", "t_self_after_xml"):
+        if base.get(f) != other.get(f):
+            if ps and not is_exc(base.get(f)) and not is_exc(other.get(f)) and norm_script(base[f]) == norm_script(other[f]):
+                out.append((f, "known", KEY_SCRIPT))
+            else:
+                out.append((f, "violation", "main.diff_texts (%s) results differ: %r vs %r" % (f, base.get(f), other.get(f))))
+    for f in ("patched", "fxml", "t_xml"):
         if base.get(f) != other.get(f):
             ib, io = infoset_of_text(base[f]), infoset_of_text(other[f])
             if (ps or pp) and ib is not None and ib == io:
@@ -232,6 +238,14 @@ def compute(lx, rx, opts, with_xml=True):
     res["fold"] = call(lambda: main.diff_trees(X(lx), X(rx), diff_options=opts, formatter=formatting.XmlDiffFormatter()))
     if with_xml:
         res["fxml"] = call(lambda: main.diff_trees(X(lx), X(rx), diff_options=opts, formatter=formatting.XMLFormatter()))
+    # the text-level entry points on the very same strings (anything kept per input text between calls shows here):
+    # plain script, then the xml formatter (whose prepare() rewrites the trees it is given), then the plain script again
+    res["t_script"] = call(lambda: struct(main.diff_texts(lx, rx, diff_options=opts)))
+    if with_xml:
+        res["t_xml"] = call(lambda: main.diff_texts(lx, rx, diff_options=opts, formatter=formatting.XMLFormatter(
+            normalize=formatting.WS_NONE, text_tags=("b",), formatting_tags=("c",))))
+        res["t_script_after_xml"] = call(lambda: struct(main.diff_texts(lx, rx, diff_options=opts)))
+        res["t_self_after_xml"] = call(lambda: struct(main.diff_texts(lx, lx, diff_options=opts)))
     return json.loads(json.dumps(res))
 
 
@@ -691,6 +705,19 @@ def monitor_mutation(rng, pairs, viols, counts):
             if (snap(L), snap(R)) != b:
                 viols.append({"what": "main.diff_trees(formatter=%s) modified an input tree" % fname,
                               "replay": {"kind": "mutation", "call": "diff_trees", "formatter": fname, "left": lx, "right": rx, "opts": opts}})
+        # sub-elements of larger documents, followed by text (the right tree is the caller's own object: nothing of its
+        # document may change, not even the text after it)
+        def embedded(x):
+            outer = etree.fromstring("<outer>lead<pre/>mid%s after <post/>end</outer>" % x)
+            return outer[1]
+        for fname, mk in (("none", lambda: None), ("diff", formatting.DiffFormatter), ("old", formatting.XmlDiffFormatter)):
+            L, R = embedded(lx), embedded(rx)
+            b = (snap(L), snap(R))
+            call(lambda: main.diff_trees(L, R, diff_options=opts, formatter=mk()))
+            counts["diff_trees"] += 1
+            if (snap(L), snap(R)) != b:
+                viols.append({"what": "main.diff_trees(formatter=%s) modified the document around a sub-element given as input" % fname,
+                              "replay": {"kind": "mutation", "call": "diff_trees-embedded", "formatter": fname, "left": lx, "right": rx, "opts": opts}})
         # element trees (not elements) as inputs, and the Differ API directly
         L, R = X(lx).getroottree(), X(rx).getroottree()
         b = (snap(L), snap(R))
@@ -714,6 +741,18 @@ def monitor_mutation(rng, pairs, viols, counts):
             if (snap(Tt), snap_actions(acts), [id(a) for a in acts]) != b:
                 viols.append({"what": "main.patch_tree modified the input tree or the action list",
                               "replay": {"kind": "mutation", "call": "patch_tree", "left": lx, "right": rx, "opts": opts, "tree": target}})
+        # scripts in another order than the differ's (hand-written): reversed, namespace actions last, a tuple
+        from xmldiff import actions as A
+        for variant in (list(reversed(list(s))), [a for a in s if not isinstance(a, A.InsertNamespace)] + [A.InsertNamespace("zz", "urn:zz")],
+                        [A.UpdateTextIn("/*[1]", "2"), A.InsertNamespace("s", "urn:s"), A.DeleteNamespace("s")]):
+            Tt = X(lx)
+            acts = list(variant)
+            b = (snap(Tt), snap_actions(acts), [id(a) for a in acts])
+            call(lambda: main.patch_tree(acts, Tt))
+            counts["patch_tree"] += 1
+            if (snap(Tt), snap_actions(acts), [id(a) for a in acts]) != b:
+                viols.append({"what": "main.patch_tree modified the input tree or the action list (script not in the differ's order)",
+                              "replay": {"kind": "mutation", "call": "patch_tree-permuted", "left": lx, "right": rx, "opts": opts}})
         for fname, mk in (("diff", formatting.DiffFormatter), ("old", formatting.XmlDiffFormatter), ("xml", formatting.XMLFormatter)):
             Tt = X(lx)
             acts = list(s)
@@ -746,6 +785,12 @@ def monitor_history(run, rng, pairs, viols, counts, label):
         pollute(pol)
         again = compute(lx, rx, opts)
         counts[label] += 1
+        for rec in (base, again):
+            if "t_script_after_xml" in rec and rec["t_script_after_xml"] != rec["t_script"] and not is_exc(rec["t_script"]):
+                viols.append({"what": "main.diff_texts(l, r) gives %r, after a diff_texts call with the xml formatter on the same strings %r"
+                                      % (rec["t_script"], rec["t_script_after_xml"]),
+                              "replay": {"kind": "text-history", "left": lx, "right": rx, "opts": opts}})
+                break
         diffs = classify(lx, rx, base, again)
         if diffs:
             # confirm from scratch so that the replay file alone reproduces it
@@ -1265,6 +1310,12 @@ def replay(run, path):
                 bad += 1
                 print("reused differ:", again, " new differ:", fresh)
         print("reuse dependence reproduced" if bad else "property holds on this input")
+        return 1 if bad else 0
+    if kind == "text-history":
+        rec = compute(d["left"], d["right"], d["opts"])
+        print("diff_texts:", rec["t_script"], "\nafter the xml formatter on the same strings:", rec["t_script_after_xml"])
+        bad = rec["t_script"] != rec["t_script_after_xml"]
+        print("history dependence reproduced" if bad else "property holds on this input")
         return 1 if bad else 0
     if kind == "object-reuse":
         from xmldiff import patch as P
